@@ -236,13 +236,11 @@ class PathCtx:
         if r is None:
             saved = T.CTX[0]
             T.CTX[0] = None
-            orc, self.ex.alg.oracle = self.ex.alg.oracle, None
             try:
-                st, _, _ = solve.z3_check(list(self.all_hyps()), sb, timeout_s=2.0, alg=self.ex.alg)
-                if st != 'proved':
-                    st, _, _ = solve.z3_check(list(self.all_hyps()), sb, timeout_s=2.0, alg=None)
+                # term-level export only: the normaliser must not be re-entered (its caches would be filled
+                # without the sign information that is being asked for)
+                st, _, _ = solve.z3_check(list(self.all_hyps()), sb, timeout_s=2.0, alg=None)
             finally:
-                self.ex.alg.oracle = orc
                 T.CTX[0] = saved
             r = (st == 'proved')
         self.fresh[key] = r
